@@ -67,8 +67,8 @@ def popUnused (u : List (List Nat Ã— List Nat)) (si ti : Nat) : List (List Nat Ã
   let u1 := u.set si ((u.getD si ([], [])).1.tail, (u.getD si ([], [])).2)
   u1.set ti ((u1.getD ti ([], [])).1, (u1.getD ti ([], [])).2.tail)
 
-/-- `add_edge(source, target)`: the diagram after the call (the Python object is mutated even
-    when the call raises) and the error raised, if any -/
+/-- `add_edge(source, target)`: the diagram after the call (nodes that were not yet part of the diagram stay registered
+    even when the call raises; the indices are consumed only by an accepted edge) and the error raised, if any -/
 def Diagram.addEdge' (d : Diagram) (src tgt : Node) : Diagram Ã— Option DErr :=
   let loc := d.locate src tgt
   let d2 := loc.1
@@ -76,9 +76,9 @@ def Diagram.addEdge' (d : Diagram) (src tgt : Node) : Diagram Ã— Option DErr :=
   let ti := loc.2.2
   match d2.freeCov si, d2.freeCon ti with
   | i :: _, j :: _ =>
-    -- both pops happen before the dimension test
+    -- the dimension test comes first; the two indices are consumed only when the edge is accepted
     let u2 := popUnused d2.unused si ti
-    if src.dimAt i â‰  tgt.dimAt j then ({ d2 with unused := u2 }, some .dimMismatch)
+    if src.dimAt i â‰  tgt.dimAt j then (d2, some .dimMismatch)
     else ({ d2 with unused := u2, contractions := d2.contractions ++ [(si, ti, i, j)] }, none)
   | _, _ => (d2, some .noIndicesLeft)
 
